@@ -334,10 +334,16 @@ func c09Run(c *caseCtx) (res caseResult) {
 		close(stopChurn)
 	case <-time.After(wd):
 		close(stopChurn)
+		// decide on state: blocked for good, or merely slow?
+		rest, where := atRest(3 * time.Second)
 		if held != nil {
 			close(held.hold)
 		}
-		res.violate("a Send call did not return within the watchdog: sending must never block the caller (%s)", res.Desc)
+		if rest {
+			res.violate("a Send call never returned: the process is at rest (%s): sending must never block the caller (%s)", where, res.Desc)
+		} else {
+			res.inconclusive("the sends did not return within the watchdog, the process is not at rest: %s (%s)", where, res.Desc)
+		}
 		return
 	}
 	if held != nil {
@@ -348,7 +354,11 @@ func c09Run(c *caseCtx) (res caseResult) {
 	select {
 	case <-cdone:
 	case <-time.After(wd):
-		res.violate("Spawn/Stop calls running next to the dead-letter sends did not return (%s)", res.Desc)
+		if rest, where := atRest(3 * time.Second); rest {
+			res.violate("Spawn/Stop calls running next to the dead-letter sends never returned: the process is at rest (%s) (%s)", where, res.Desc)
+		} else {
+			res.inconclusive("the spawn/stop churn did not finish within the watchdog, the process is not at rest: %s (%s)", where, res.Desc)
+		}
 		return
 	}
 	// the actors stopped by the churn: once their stop contexts are done they are gone from the registry (a
